@@ -122,6 +122,7 @@ func (s *socket) SendMsg(m *protocol.Message) error {
 }
 
 func (s *socket) RecvMsg() (*protocol.Message, error) {
+	var expireQ <-chan time.Time
 	for {
 		s.Lock()
 		timeQ := nilQ
@@ -129,7 +130,12 @@ func (s *socket) RecvMsg() (*protocol.Message, error) {
 		sizeQ := s.sizeQ
 		closeQ := s.closeQ
 		if s.recvExpire > 0 {
-			timeQ = time.After(s.recvExpire)
+			if expireQ == nil {
+				// the deadline belongs to the call: armed once, not
+				// again each time the queue is replaced
+				expireQ = time.After(s.recvExpire)
+			}
+			timeQ = expireQ
 		}
 		s.Unlock()
 		select {
